@@ -9,12 +9,30 @@ import (
 type zzC05Snap struct {
 	id      string
 	version int
+	slots   int // server lines rendered, empty slots included (ignored by backendsMatch)
+}
+
+// zzC05Model is what the shard file j has to contain: the backends of the current state
+// (Items(), which is also what maps and the dynamic updater read) that belong to shard j.
+func zzC05Model(b *Backends, j int) []zzC05Snap {
+	var list []*Backend
+	for _, bk := range b.Items() {
+		if bk.shard == j {
+			list = append(list, bk)
+		}
+	}
+	for i := 1; i < len(list); i++ {
+		for k := i; k > 0 && list[k].ID < list[k-1].ID; k-- {
+			list[k], list[k-1] = list[k-1], list[k]
+		}
+	}
+	return zzC05Snapshot(list)
 }
 
 func zzC05Snapshot(items []*Backend) []zzC05Snap {
 	out := make([]zzC05Snap, len(items))
 	for i, b := range items {
-		out[i] = zzC05Snap{id: b.ID, version: b.Server.InitialWeight}
+		out[i] = zzC05Snap{id: b.ID, version: b.Server.InitialWeight, slots: len(b.Endpoints)}
 	}
 	return out
 }
@@ -29,6 +47,17 @@ func zzC05Equal(a, b []zzC05Snap) bool {
 		}
 	}
 	return true
+}
+
+// zzC05Fill gives a just acquired backend its content: the version, one live server and
+// optionally an empty slot (what alignSlots leaves behind; backendsMatch ignores empty slots,
+// the rendered file does not).
+func zzC05Fill(bk *Backend, version int) {
+	bk.Server.InitialWeight = version
+	bk.AcquireEndpoint("10.0.0.1", 8080, "")
+	if nd.Bool("emptyslot") {
+		bk.AddEmptyEndpoint()
+	}
 }
 
 var zzC05Names = []string{"d1", "d2", "d3", "d4"}
@@ -68,8 +97,7 @@ func VerifC05_Shards() {
 			b.Clear()
 			for k, n := range names {
 				if newExists[k] {
-					bk := b.AcquireBackend(n, "app", "8080")
-					bk.Server.InitialWeight = newVersion[k]
+					zzC05Fill(b.AcquireBackend(n, "app", "8080"), newVersion[k])
 				}
 			}
 		} else {
@@ -82,8 +110,7 @@ func VerifC05_Shards() {
 			b.RemoveAll(ids)
 			for k, n := range names {
 				if dirty[k] && newExists[k] {
-					bk := b.AcquireBackend(n, "app", "8080")
-					bk.Server.InitialWeight = newVersion[k]
+					zzC05Fill(b.AcquireBackend(n, "app", "8080"), newVersion[k])
 				}
 			}
 		}
@@ -99,7 +126,7 @@ func VerifC05_Shards() {
 		// every file HAProxy loads equals the current model
 		count := 0
 		for j := 0; j < shardCount; j++ {
-			cur := zzC05Snapshot(b.BuildSortedShard(j))
+			cur := zzC05Model(b, j)
 			count += len(cur)
 			nd.Assert(zzC05Equal(disk[j], cur), "shard-file-equals-model")
 		}
